@@ -1051,11 +1051,19 @@ func c01req(c *an.Ctx) {
 	put := c.Fn("nsqd", "(*Channel).put")
 	startDef := c.Fn("nsqd", "(*Channel).StartDeferredTimeout")
 	pushIn := c.Fn("nsqd", "(*Channel).pushInFlightMessage")
-	addIn := c.Fn("nsqd", "(*Channel).addToInFlightPQ")
 	pushDef := c.Fn("nsqd", "(*Channel).pushDeferredMessage")
-	addDef := c.Fn("nsqd", "(*Channel).addToDeferredPQ")
 	exiting := c.Fn("nsqd", "(*Channel).Exiting")
-	if pop == nil || put == nil || startDef == nil || pushIn == nil || addIn == nil || pushDef == nil || addDef == nil || exiting == nil {
+	if pop == nil || put == nil || startDef == nil || pushIn == nil || pushDef == nil || exiting == nil {
+		return
+	}
+	// "added to the deadline heap" is an effect (heap.Push on the field, or any helper that does it), not a helper's name
+	addIn, addDef := heapInsert(c, "inFlightPQ"), heapInsert(c, "deferredPQ")
+	if len(addIn.sites) == 0 {
+		c.Anchor("an insert into nsqd.Channel.inFlightPQ")
+		return
+	}
+	if len(addDef.sites) == 0 {
+		c.Anchor("an insert into nsqd.Channel.deferredPQ")
 		return
 	}
 	afterPop := func(fn *ssa.Function) (edges []an.Edge, tracked []ssa.Value, ok bool) {
@@ -1118,8 +1126,7 @@ func c01req(c *an.Ctx) {
 			}
 			q2 := &an.PathQ{Fn: fn, StartEdges: pushSucc, Tracked: tracked, Sink: an.IsReturn,
 				Cut: func(in ssa.Instruction, st *an.PathState) bool {
-					ci, ok := in.(ssa.CallInstruction)
-					return ok && an.IsCallTo(ci, addIn) && st.Has(arg(ci, 0))
+					return addIn.on(in, st.Has)
 				}}
 			w2, f2 := q2.Find()
 			if f {
@@ -1133,25 +1140,19 @@ func c01req(c *an.Ctx) {
 	}
 	// StartInFlightTimeout / StartDeferredTimeout: success return after push success + add to heap
 	for _, spec := range []struct {
-		name      string
-		push, add *ssa.Function
+		name string
+		push *ssa.Function
+		add  *effect
 	}{{"(*Channel).StartInFlightTimeout", pushIn, addIn}, {"(*Channel).StartDeferredTimeout", pushDef, addDef}} {
 		fn := c.Fn("nsqd", spec.name)
 		if fn == nil {
 			continue
 		}
 		w, found, n := pathAvoidingSuccess(fn, sinkSuccessReturn, func(ci ssa.CallInstruction) bool { return an.IsCallTo(ci, spec.push) })
-		adds := an.CallsTo(fn, spec.add)
 		var w2 []string
-		f2 := len(adds) == 0
-		if !f2 {
-			q := &an.PathQ{Fn: fn, StartEntry: true, Sink: sinkSuccessReturn,
-				Cut: func(in ssa.Instruction, _ *an.PathState) bool {
-					ci, ok := in.(ssa.CallInstruction)
-					return ok && an.IsCallTo(ci, spec.add)
-				}}
-			w2, f2 = q.Find()
-		}
+		q := &an.PathQ{Fn: fn, StartEntry: true, Sink: sinkSuccessReturn,
+			Cut: func(in ssa.Instruction, _ *an.PathState) bool { return spec.add.is(in) }}
+		w2, f2 := q.Find()
 		if n == 0 || found {
 			c.Bad(fn, "registered in map and heap", fn.Pos(), "returns nil without a successful "+spec.push.Name(), w)
 		} else if f2 {
